@@ -13,7 +13,7 @@ structure Env where
 
 /-- `JWSAlgModel.check_key_type(key)` -/
 def JwsAlgRow.checkKeyType (a : JwsAlgRow) (k : Key) : Except Err Unit :=
-  if k.kty != a.keyType then .error .invalidKeyType else .ok ()
+  ensure (k.kty == a.keyType) .invalidKeyType
 
 /-- `alg.verify(msg, sig, key)` -/
 def jwsVerify (P : Prims) (E : Env) (a : JwsAlgRow) (msg sig : Bytes) (k : Key) : Except Err Bool :=
@@ -21,16 +21,16 @@ def jwsVerify (P : Prims) (E : Env) (a : JwsAlgRow) (msg sig : Bytes) (k : Key) 
   | "NoneAlgModel" => .ok false
   | "HMACAlgModel" => do
     k.checkKeyOp E.ops "verify"
-    if k.kty != "oct" then throw .typeError           -- `hmac.new` with a non-bytes key
+    ensure (k.kty == "oct") .typeError           -- `hmac.new` with a non-bytes key
     let mac ← P.hmac a.hash k.raw msg
     pure (sig == mac)                                  -- `hmac.compare_digest`
   | "RSAAlgModel" | "RSAPSSAlgModel" => do
     k.checkKeyOp E.ops "verify"
-    if k.kty != "RSA" then throw .typeError           -- `.verify` of a non-RSA native key
+    ensure (k.kty == "RSA") .typeError           -- `.verify` of a non-RSA native key
     P.sigVerify a k msg sig
   | "ECAlgModel" => do
-    if k.kty != "EC" then throw .attributeError       -- `key.curve_name` on a non-curve key
-    if k.crv != a.curve then throw .valueError        -- `_check_key`
+    ensure (k.kty == "EC") .attributeError       -- `key.curve_name` on a non-curve key
+    ensure (k.crv == a.curve) .valueError        -- `_check_key`
     let length := (k.bits + 7) / 8
     if sig.length != 2 * length then pure false
     else do
@@ -40,7 +40,7 @@ def jwsVerify (P : Prims) (E : Env) (a : JwsAlgRow) (msg sig : Bytes) (k : Key) 
       P.ecdsaVerify a.hash k msg r s
   | "EdDSAAlgModel" => do
     k.checkKeyOp E.ops "verify"
-    if !(k.kty == "OKP" && (k.crv == "Ed25519" || k.crv == "Ed448")) then throw .assertionError
+    ensure (k.kty == "OKP" && (k.crv == "Ed25519" || k.crv == "Ed448")) .valueError
     P.sigVerify a k msg sig
   | _ => .error .runtimeError                          -- unknown model class: not modelled
 
@@ -50,15 +50,15 @@ def jwsSign (P : Prims) (E : Env) (a : JwsAlgRow) (msg : Bytes) (k : Key) : Exce
   | "NoneAlgModel" => .ok []
   | "HMACAlgModel" => do
     k.checkKeyOp E.ops "sign"
-    if k.kty != "oct" then throw .typeError
+    ensure (k.kty == "oct") .typeError
     P.hmac a.hash k.raw msg
   | "RSAAlgModel" | "RSAPSSAlgModel" => do
     k.checkKeyOp E.ops "sign"
-    if k.kty != "RSA" then throw .typeError
+    ensure (k.kty == "RSA") .typeError
     P.sigSign a k msg
   | "ECAlgModel" => do
-    if k.kty != "EC" then throw .attributeError
-    if k.crv != a.curve then throw .valueError
+    ensure (k.kty == "EC") .attributeError
+    ensure (k.crv == a.curve) .valueError
     k.checkKeyOp E.ops "sign"
     let (r, s) ← P.ecdsaSign a.hash k msg
     let rb ← encodeInt r k.bits
@@ -66,7 +66,7 @@ def jwsSign (P : Prims) (E : Env) (a : JwsAlgRow) (msg : Bytes) (k : Key) : Exce
     pure (rb ++ sb)
   | "EdDSAAlgModel" => do
     k.checkKeyOp E.ops "sign"
-    if !(k.kty == "OKP" && (k.crv == "Ed25519" || k.crv == "Ed448")) then throw .assertionError
+    ensure (k.kty == "OKP" && (k.crv == "Ed25519" || k.crv == "Ed448")) .valueError
     P.sigSign a k msg
   | _ => .error .runtimeError
 
